@@ -294,6 +294,9 @@ func runC07(c *fw.Ctx) {
 		{L(O("k", L(O("k", spec.NilV())))), L(O("k", L(O("j", spec.NilV()))))},
 		{L(), L()}, {O(), O()},
 		{L(L()), L(O())},
+		// +0.0 and -0.0 are the same value (==), in every position
+		{L(F(0)), L(F(math.Copysign(0, -1)))}, {O("z", F(math.Copysign(0, -1))), O("z", F(0))}, {L(I(1), L(F(math.Copysign(0, -1)), F(0))), L(I(1), L(F(0), F(math.Copysign(0, -1))))},
+		{L(F(math.Copysign(0, -1))), L(I(0))},
 		{O("a", I(1)), O("a", I(1), "b", spec.NilV())},
 	}
 	c.Cases("pinned", len(pins), true, func(i int, r *rng.R) {
